@@ -9,10 +9,12 @@ def sh(cmd, cwd=None, env=ENV, timeout=1800):
     p=subprocess.run(cmd, cwd=cwd, env=env, shell=isinstance(cmd,str), capture_output=True, text=True, timeout=timeout)
     return p.returncode, p.stdout+p.stderr
 def main():
-    args=[a for a in sys.argv[1:] if not a.startswith('--')]
-    pat=args[0] if args else ''
+    argv=sys.argv[1:]
     secs='10'
-    if '--secs' in sys.argv: secs=sys.argv[sys.argv.index('--secs')+1]
+    if '--secs' in argv:
+        i=argv.index('--secs'); secs=argv[i+1]; del argv[i:i+2]
+    args=[a for a in argv if not a.startswith('--')]
+    pat=args[0] if args else ''
     notests='--no-tests' in sys.argv
     rows=[]
     for pf in sorted(glob.glob('/verif/mutants/*.patch')):
